@@ -179,6 +179,20 @@ func computeYear(lunar *Lunar) {
 			gExact++
 			zExact++
 		}
+	} else {
+		// the lunar year can run one ahead of the civil year (e.g. 0015-12-31 is lunar 16-1-2)
+		g--
+		z--
+		gExact--
+		zExact--
+		if strings.Compare(solarYmd, liChunYmd) < 0 {
+			g--
+			z--
+		}
+		if strings.Compare(solarYmdHms, liChunYmdHms) < 0 {
+			gExact--
+			zExact--
+		}
 	}
 
 	if g < 0 {
